@@ -46,6 +46,9 @@ type kind struct {
 	// jsonEnc/jsonDec: JSON form, nil when none is defined.
 	jsonEnc func(v any) ([]byte, error)
 	jsonDec func(b []byte) (any, error)
+	// sameEncoding compares a received encoding with the re-encoding when plain byte equality is not the right
+	// notion (compressed frames: compare the payload bytes).
+	sameEncoding func(in, e1 []byte) bool
 	// reencRefused recognises an encoding that stands for "the encoder's documented limits refuse this value".
 	reencRefused func(v any, e1 []byte) bool
 	// guard inspects an input before it is decoded and returns the iteration count the decoder's loop is going to
@@ -581,6 +584,11 @@ func init() {
 			},
 			ident: msgIdent, dump: msgDump,
 			nodetermFn: func(e []byte) bool { return len(e) > 0 && e[0]&byte(network.Compressed) != 0 },
+			sameEncoding: func(in, e1 []byte) bool {
+				a, ok1 := framePayload(in)
+				b, ok2 := framePayload(e1)
+				return ok1 && ok2 && len(in) > 1 && len(e1) > 1 && in[1] == e1[1] && bytes.Equal(a, b)
+			},
 		})
 	}
 
